@@ -334,6 +334,7 @@ package ugo
 //@ ensures[iff]   (err == nil) == specOperandsOK(op, args)
 //@ ensures[len]   err == nil ==> len(out) == specInstLen(op) && out[0] == byte(op)
 //@ ensures[read]  err == nil ==> forall i int :: 0 <= i && i < len(args) ==> specOperandAt(out, op, i) == args[i]
+//@ ensures[alias] verifrt.SameRef(out, buf) || verifrt.Fresh(out)
 //@ loop 0 invariant len(args) == len(OpcodeOperands[op]) && 0 <= verifIdx && verifIdx <= len(args)
 //@ loop 0 invariant forall k int :: 0 <= k && k < verifIdx ==> 0 <= args[k] && args[k] <= specMaxOperand(specWidthAt(op, k))
 //@ modifies buf[*]
@@ -380,6 +381,7 @@ package ugo
 //@ ensures[len]    len(out) == len(numOperands)
 //@ ensures[vals]   forall i int :: 0 <= i && i < len(numOperands) ==> out[i] == specReadAt(ins, numOperands, i)
 //@ ensures[widths] verifrt.Disjoint(out, numOperands)
+//@ ensures[alias]  verifrt.SameRef(out, operands) || verifrt.Fresh(out)
 //@ loop 0 invariant len(operands) == verifIdx && offset == specOffsetOf(numOperands, verifIdx) && 0 <= verifIdx && verifIdx <= len(numOperands)
 //@ loop 0 invariant forall k int :: 0 <= k && k < verifIdx ==> operands[k] == specReadAt(ins, numOperands, k)
 //@ loop 0 invariant verifrt.Disjoint(operands, numOperands)
